@@ -5,6 +5,7 @@
 package bridge
 
 import (
+	"crypto/ecdsa"
 	"encoding/hex"
 	"encoding/json"
 	"fmt"
@@ -20,6 +21,7 @@ import (
 	sdk "github.com/cosmos/cosmos-sdk/types"
 	authtypes "github.com/cosmos/cosmos-sdk/x/auth/types"
 	distrtypes "github.com/cosmos/cosmos-sdk/x/distribution/types"
+	"github.com/ethereum/go-ethereum/crypto"
 	"github.com/palomachain/paloma/v2/util/blocks"
 	"github.com/palomachain/paloma/v2/util/libcons"
 	"github.com/palomachain/paloma/v2/x/skyway"
@@ -119,6 +121,15 @@ type run struct {
 	ethH     map[string]uint64
 	seen     map[[2]int]bool            // issued checkpoints (nonce, est) ever observed on a stored batch
 	lastSeen map[int]st.OutgoingTxBatch // last stored version of every batch (external form)
+	newKey   map[int]*ecdsa.PrivateKey  // validators that rotated their remote-chain key: the key registered now
+}
+
+// curKey is the key validator v (1-based) has registered at the moment.
+func (r *run) curKey(v int) *ecdsa.PrivateKey {
+	if k, ok := r.newKey[v]; ok {
+		return k
+	}
+	return r.w.e.Vals[v-1].EthKey
 }
 
 func (r *run) setHeight(h int64) {
@@ -500,16 +511,37 @@ func (r *run) step(s drv.Step) (res string, extra map[string]any) {
 		if cp == nil {
 			cp = make([]byte, 32)
 		}
-		sig, err := st.NewEthereumSignature(cp, v.EthKey)
+		sig, err := st.NewEthereumSignature(cp, r.curKey(a.V))
 		if err != nil {
 			panic(err)
 		}
 		res = msg(func(ctx sdk.Context) error {
-			_, err := e.SkywayMsg.ConfirmBatch(ctx, &st.MsgConfirmBatch{Nonce: uint64(a.N), TokenContract: contract, EthSigner: v.EthAddr.Hex(), Orchestrator: v.Acc.String(), Signature: hex.EncodeToString(sig), Metadata: meta(v.Acc)})
+			_, err := e.SkywayMsg.ConfirmBatch(ctx, &st.MsgConfirmBatch{Nonce: uint64(a.N), TokenContract: contract, EthSigner: crypto.PubkeyToAddress(r.curKey(a.V).PublicKey).Hex(), Orchestrator: v.Acc.String(), Signature: hex.EncodeToString(sig), Metadata: meta(v.Acc)})
 			return err
 		}, 0)
-	case "Evidence":
+	case "ReKey":
+		// the validator registers a new key on every chain (the way pigeon does after a key rotation)
 		v := e.Vals[a.V-1]
+		k, _ := crypto.ToECDSA(crypto.Keccak256([]byte(fmt.Sprintf("verif-bridge-rekey-%d-%d", drv.Seed(), a.V))))
+		addr := crypto.PubkeyToAddress(k.PublicKey)
+		infos := []*valsettypes.ExternalChainInfo{}
+		for _, c := range e.Opts.Chains {
+			infos = append(infos, &valsettypes.ExternalChainInfo{ChainType: "evm", ChainReferenceID: c, Address: addr.Hex(), Pubkey: addr.Bytes()})
+		}
+		if err := e.Valset.AddExternalChainInfo(r.ctx, v.Val, infos); err != nil {
+			panic(err)
+		}
+		if r.newKey == nil {
+			r.newKey = map[int]*ecdsa.PrivateKey{}
+		}
+		r.newKey[a.V] = k
+		res = "gov"
+	case "Evidence", "EvidenceOld":
+		v := e.Vals[a.V-1]
+		signKey := r.curKey(a.V)
+		if s.Act == "EvidenceOld" {
+			signKey = v.EthKey // the key that WAS registered before the rotation
+		}
 		ext, ok := r.lastSeen[a.N]
 		extra["known"] = ok
 		if !ok {
@@ -529,7 +561,7 @@ func (r *run) step(s drv.Step) (res string, extra map[string]any) {
 		if err != nil {
 			panic(err)
 		}
-		sig, _ := st.NewEthereumSignature(cp, v.EthKey)
+		sig, _ := st.NewEthereumSignature(cp, signKey)
 		subj, err := codectypes.NewAnyWithValue(&ext)
 		if err != nil {
 			panic(err)
